@@ -42,6 +42,31 @@ def gen_cases(tier):
             cfgs = [([], True, None), ([], False, None), ([], True, [1]), ([], False, [3, 1]), ([], True, [1, 2, 3])]
             cases.append({"id": i + 1, "raw": {"kind": "random", "top": top, "div": div}, "cfgs": cfgs})
             continue
+        if i % 12 == 6:
+            # the dividend's guarantee, once refined, is the TWIN of an assumption of the divisor (same variables and bound, the same coefficients
+            # handed to other variables / one coefficient off): both have to appear in what the quotient promises
+            from props import c08
+            a_, b_ = rng.choice([(1, 2), (2, 1), (1, 3), (3, 2)])
+            bound = rng.choice([4, 6, 3])
+            r = ({"k": a_, "m": b_}, bound)                 # what "o <= bound" becomes through  o <= a k + b m
+            kk = rng.random()
+            tw = c08.permuted_twin(r) if kk < 0.5 else (c08.first_coefficient_twin(r) if kk < 0.8 else c08.near_twin(rng, r)[1])
+            top = {"inv": ["i"], "outv": ["o"], "a": [({"i": -1}, 0), ({"i": 1}, 10)], "g": [({"o": 1}, bound)]}
+            div = {"inv": ["k", "m"], "outv": ["o"], "a": [tw], "g": [({"o": 1, "k": -a_, "m": -b_}, 0)]}
+            cfgs = [([], True, None), ([], False, None), ([], True, gen.rorder(rng))]
+            cases.append({"id": i + 1, "raw": {"kind": "random", "top": top, "div": div}, "cfgs": cfgs})
+            continue
+        if i % 12 == 8:
+            # a dividend guarantee with a NEGATIVELY signed shared variable that is bounded only through a chain over a second shared variable
+            # (tactic 4 has to recurse, and to restore the sign on the way back)
+            lo, hi = rng.randint(1, 3), rng.randint(20, 100)
+            sg = rng.choice([1, 1, -1])
+            # dividend: in i, out r, o -- assumes lo <= i <= hi, guarantees r - sg*o <= c;  divisor: in i, k, out o -- assumes sg*k <= sg*i, guarantees sg*i <= sg*o
+            top = {"inv": ["i"], "outv": ["r", "o"], "a": [({"i": -1}, -lo), ({"i": 1}, hi)], "g": [({"r": 1, "o": -sg}, rng.randint(2, 6))]}
+            div = {"inv": ["i", "k"], "outv": ["o"], "a": [({"k": sg, "i": -sg}, 0)], "g": [({"i": sg, "o": -sg}, 0)]}
+            cfgs = [([], True, None), ([], False, None), ([], True, [4]), ([], False, [4, 1, 2])]
+            cases.append({"id": i + 1, "raw": {"kind": "random", "top": top, "div": div}, "cfgs": cfgs})
+            continue
         if i % 12 == 10:
             # coefficients six orders of magnitude apart inside one substituted term (512 against 2^-11): the small one is no residue
             K, e = rng.choice([512, 256]), rng.choice([2.0**-11, 2.0**-12])
